@@ -91,12 +91,14 @@ def bare(b):
 
 def gen_stream(rnd, stats, maxn=12, depth=4):
     n = rnd.choice([0, 1, 2, 3, 5, maxn])
+    items = [gen_value(rnd, rnd.choice([0, 1, 2, depth]), stats) for _ in range(n)]
     vals = []; out = ws(rnd)
-    for i in range(n):
-        v, b = gen_value(rnd, rnd.choice([0, 1, 2, depth]), stats)
+    for i, (v, b) in enumerate(items):
         vals.append(v); out += b
         last = i == n - 1
-        if bare(b) and not last: out += ws(rnd, allow_empty=False)
+        # two tokens may touch when the second one announces itself: a number or a literal name directly followed by [ { or "
+        # needs no whitespace; followed by another number or name it does
+        if bare(b) and not last and bare(items[i + 1][1]): out += ws(rnd, allow_empty=False)
         else: out += ws(rnd)
     return vals, out
 
